@@ -73,6 +73,7 @@ package header
 //@   ensures result1 == nil ==> !result0.IsZero() && result0.Height() == height && result0 == chainAt(height)
 
 //@ iface Store.Get(s, ctx, hash)
+//@   requires [C10] deadline: ctxBounded(ctx)
 //@   ensures result1 == nil ==> !result0.IsZero() && result0.Hash() == hash
 
 //@ iface Getter.GetByHeight(g, ctx, height)
@@ -84,3 +85,25 @@ package header
 //@ iface Store.DeleteRange(s, ctx, from, to)
 //@   requires [C16] tail-side: from < to && from == storeTailH && to <= storeLow + 1
 //@   modifies ghost:storeTailH
+
+// ---- store as seen by the exchange server (C10): head/tail stable during one request (assumption)
+
+//@ ghost var storeHeadH uint64 -- height of the store's head during the request (0: empty store)
+//@ ghost var storeReads int -- number of header reads the store performed (bounded-work counter)
+//@ predicate ctxBounded(ctx Ref) -- the context carries a deadline (derived from context.WithTimeout)
+
+//@ iface Store.HasAt(s, ctx, h)
+//@   requires [C10] deadline: ctxBounded(ctx)
+//@   ensures result <==> (1 <= storeTailH && storeTailH <= h && h <= storeHeadH)
+
+//@ iface Store.Head(s, ctx, opts)
+//@   requires [C10] deadline: ctxBounded(ctx)
+//@   ensures result1 == nil ==> !result0.IsZero() && result0.Height() == storeHeadH && result0 == chainAt(storeHeadH) && 1 <= storeHeadH
+//@   ensures result1 != nil ==> result0.IsZero()
+
+//@ iface Store.GetRange(s, ctx, from, to)
+//@   requires [C10] deadline: ctxBounded(ctx)
+//@   requires [C10] bounded: from < to && to - from <= MaxRangeRequestSize
+//@   modifies ghost:storeReads
+//@   ensures storeReads == old(storeReads) + (to - from)
+//@   ensures result1 == nil ==> len(result0) == to - from && forall i int :: 0 <= i && i < len(result0) ==> result0[i] == chainAt(from + i)
